@@ -228,6 +228,26 @@ def run_case(args):
         recs.append(dict(case=case.name, label='<case>', verdict='harness-error',
                          why="%s: %s" % (type(e).__name__, traceback.format_exc()[-1500:])))
     signal.setitimer(signal.ITIMER_REAL, 0)
+    # the encoding could not follow the code (an unmodelled library call, an exploded expression, a timeout):
+    # nothing is concluded from that, but the case is at least exercised on a few concrete inputs against the
+    # unpatched code so that a plain violation is not missed behind an INCONCLUSIVE line
+    if (not case.lemma and not case.expect_sat
+            and any(r['verdict'] == 'inconclusive' and r['label'] in ('<path>', '<case>') for r in recs)
+            and not any(r['verdict'] == 'violation' for r in recs)):
+        import random as _rnd
+        rg = _rnd.Random(hash(case.name) & 0xffff)
+        for attempt in range(3):
+            guess = {}
+            if attempt:
+                for nme in P.var_names():
+                    if P.var_meta(nme).get('kind') == 'input':
+                        guess[nme] = str(Fraction(rg.randint(-12, 12), 8) + Fraction(1, 3))
+            rep = replay_model(cid, case, guess, tier, seed)
+            if rep.get('reproduced') and rep.get('fails'):
+                lab = rep['fails'][0][0]
+                recs.append(dict(case=case.name, label=lab, kind='probe', verdict='violation', model=guess, replay=rep,
+                                 why='symbolic run inconclusive; violation found by concrete probing of the case and replayed'))
+                break
     # vacuity at case level: the explored paths partition the inputs, so an unsat on a path whose own
     # reachability is undecided is still sound; but at least one path of the case must be shown reachable,
     # otherwise unsatisfiable assumptions could make everything pass
